@@ -153,7 +153,7 @@ func init() {
 				W:       weights(Weights{"junk": 14, "status": 5, "reflog": 4, "log": 3, "branch-rename": 4, "reset": 6, "rm": 6, "restore": 6}),
 				Oracles: []HistOracle{orC18}, NoIdent: 15, FreshPct: 35, JunkSweep: true}
 		})
-	checks["C20"] = histCheck("C20", []string{"C20.world_config_readback", "C20.world_config_sets_identity", "C20.parse_render", "C20.world_only_config_writes_config", "C20.world_identity_gate", "C20.world_config_is_cmd", "C20.world_config_refused_unchanged", "C20.add_get", "C20.local_overrides_global", "C20.global_fallback", "C20.isUserSet_iff", "C20.add_cfgOK", "C20.config_set_roundtrip", "C20.configCmd_ok", "C20.configCmd_roundtrip", "C20.configCmd_refused"}, histRule,
+	checks["C20"] = histCheck("C20", []string{"C20.world_config_global_readback", "C20.userField_precedence", "C20.world_config_readback", "C20.world_config_sets_identity", "C20.parse_render", "C20.world_only_config_writes_config", "C20.world_identity_gate", "C20.world_config_is_cmd", "C20.world_config_refused_unchanged", "C20.add_get", "C20.local_overrides_global", "C20.global_fallback", "C20.isUserSet_iff", "C20.add_cfgOK", "C20.config_set_roundtrip", "C20.configCmd_ok", "C20.configCmd_roundtrip", "C20.configCmd_refused"}, histRule,
 		func(ctx *Ctx) *HistCfg {
 			return &HistCfg{Prop: "C20", Cases: tierN(ctx, 200, 2000), MinSteps: 6, MaxSteps: 25,
 				W:       Weights{"config": 30, "commit": 10, "write": 10, "add-all": 8, "status": 1},
